@@ -306,7 +306,9 @@ fn bind_group_layout_entry(
 fn storage_access(access: naga::StorageAccess) -> TokenStream {
     let is_read = access.contains(naga::StorageAccess::LOAD);
     let is_write = access.contains(naga::StorageAccess::STORE);
+    let is_atomic = access.contains(naga::StorageAccess::ATOMIC);
     match (is_read, is_write) {
+        (true, true) if is_atomic => quote!(wgpu::StorageTextureAccess::Atomic),
         (true, true) => quote!(wgpu::StorageTextureAccess::ReadWrite),
         (true, false) => quote!(wgpu::StorageTextureAccess::ReadOnly),
         (false, true) => quote!(wgpu::StorageTextureAccess::WriteOnly),
